@@ -34,6 +34,8 @@ from sim.tape import Tape
 from . import c14 as B       # shared: templates, script paths, bundled template handling
 
 PROP = "C07"
+TIMEOUT_IS_VIOLATION = True      # "a failing run terminates": see sim/driver.py (confirmed alone, 240 s)
+TIMEOUT_CONFIRM_S = 240
 R = W.SIMROOT
 ENTRIES = ["py-main-script", "py-sub-script", "ml-script", "py-main-api", "py-sub-api", "ml-api"]
 STRAY_NONSTARTERS = [")", "]", ",", "=", "@@", "$"]
@@ -54,10 +56,10 @@ def batches(tier):
                 dict(name="valid", runs=30000, budget_s=250, per_run_timeout=120),
                 dict(name="readerr", runs=20000, budget_s=120, per_run_timeout=120),
                 dict(name="latefail", runs=30000, budget_s=200, per_run_timeout=120)]
-    return [dict(name="corrupt", runs=4000, budget_s=50, per_run_timeout=90),
-            dict(name="valid", runs=600, budget_s=15, per_run_timeout=90),
-            dict(name="readerr", runs=400, budget_s=10, per_run_timeout=90),
-            dict(name="latefail", runs=900, budget_s=15, per_run_timeout=90)]
+    return [dict(name="corrupt", runs=4000, budget_s=50, per_run_timeout=60),
+            dict(name="valid", runs=600, budget_s=15, per_run_timeout=60),
+            dict(name="readerr", runs=400, budget_s=10, per_run_timeout=60),
+            dict(name="latefail", runs=900, budget_s=15, per_run_timeout=60)]
 
 
 def describe():
